@@ -69,7 +69,20 @@ class Probe:
         self.bmag = float(np.linalg.norm(self.b))
         self.c4 = spec['c4']
         self.cmax = float(np.abs(self.c4).max())
+        self.ls = float(spec.get('ls', 1.0))          # length scale applied to every field point (b is already scaled)
         self.ok = True
+
+    # -- point sets, scaled -------------------------------------------------------
+    def _field_points(self):
+        x, r, t = P.field_points(self.ctx.rng, self.m, self.n, 40)
+        return x * self.ls, r * self.ls, t
+
+    def _cut_points(self):
+        neg, pos, r = P.cut_points(self.ctx.rng, self.m, self.n)
+        return neg * self.ls, pos * self.ls, r * self.ls
+
+    def _ray_points(self, angles):
+        return [(a, p * self.ls, r * self.ls, tang) for a, p, r, tang in P.ray_points(self.ctx.rng, self.m, self.n, angles)]
 
     # -- real-code field callables (arrays of >= 2 points) --------------------
     def u(self, x):
@@ -125,24 +138,24 @@ class Probe:
         """preln against the strain energy of the solution's own fields, and
         zero net force through a circuit around the line."""
         rec, key = self.rec, self.key
-        pts, rhat, _t = O.ring(self.m, self.n, 256, r=1.0, z=0.3)
+        pts, rhat, _t = O.ring(self.m, self.n, 256, r=self.ls, z=0.3 * self.ls)
         e, s = self.eps(pts), self.sig(pts)
-        a256 = O.energy_prefactor(e, s)
-        a128 = O.energy_prefactor(e[::2], s[::2])
+        a256 = O.energy_prefactor(e, s) * self.ls ** 2
+        a128 = O.energy_prefactor(e[::2], s[::2]) * self.ls ** 2
         tol = 1e-7 * abs(a256) + 10 * abs(a256 - a128)
         if abs(a256 - a128) > 1e-6 * abs(a256):
             rec.count('energy:quadrature-not-converged-exempt')
             return
         rec.close(tol, self.sol.preln, a256,
                   'preln equals the energy prefactor of the solution\'s own fields: int 1/2 sigma:eps r^2 dtheta', f'{key}:preln-energy')
-        F = O.circuit_force(s, rhat)
+        F = O.circuit_force(s, rhat, r=self.ls)
         rec.close(1e-7 * self.cmax * self.bmag, F, np.zeros(3), 'no net force is transmitted through a circuit round the line (pure dislocation)',
                   f'{key}:line-force')
 
     # -- jump and continuity -----------------------------------------------------
     def jump(self):
         rec, key, rng = self.rec, self.key, self.ctx.rng
-        neg, pos, r = P.cut_points(rng, self.m, self.n)
+        neg, pos, r = self._cut_points()
         d = (D_REL * r)[:, None] * self.n
         tol = 2e-5 * self.bmag
         J = self.u(neg + d) - self.u(neg - d)
@@ -152,7 +165,7 @@ class Probe:
         J0 = self.u(pos + d) - self.u(pos - d)
         rec.close(tol, J0, np.zeros_like(J0), 'u is continuous across the continuation of the cut (x.m>0, x.n=0)', f'{key}:continuity-x>0')
         angles = [np.pi / 2, -np.pi / 2, np.pi - 0.03, -np.pi + 0.03, float(rng.uniform(-3.0, 3.0))]
-        for a, p, rr, tang in P.ray_points(rng, self.m, self.n, angles):
+        for a, p, rr, tang in self._ray_points(angles):
             dd = (D_REL * rr)[:, None] * tang
             Jr = self.u(p + dd) - self.u(p - dd)
             name = {0: 'pi/2', 1: '-pi/2', 2: 'pi-0.03', 3: '-pi+0.03'}.get(angles.index(a), 'random')
@@ -162,7 +175,7 @@ class Probe:
     # -- differential clauses ------------------------------------------------------
     def fields(self):
         rec, key, rng = self.rec, self.key, self.ctx.rng
-        x, r, t = P.field_points(rng, self.m, self.n, 40)
+        x, r, t = self._field_points()
         u = _real(rec, self.sol.displacement(x), 'displacement', key)
         e = _real(rec, self.sol.strain(x), 'strain', key)
         s = _real(rec, self.sol.stress(x), 'stress', key)
@@ -183,7 +196,7 @@ class Probe:
                   f'{key}:strain-gradient', richardson_delta=est)
         # rotation-free part is not constrained; but the gradient along the line vanishes
         du = self.u(x + r[:, None] * self.xi) - u
-        rec.close(1e-11 * self.bmag * (1 + np.abs(np.log(r)))[:, None], du, np.zeros_like(du), 'fields do not depend on the position along the line',
+        rec.close(1e-11 * self.bmag * (1 + np.abs(np.log(r / self.ls)))[:, None], du, np.zeros_like(du), 'fields do not depend on the position along the line',
                   f'{key}:line-invariance')
         # Hooke
         rec.close(3e-7 * self.cmax * sc_e[:, None, None], s, O.contract(self.c4, e), 'stress equals the stiffness contracted with the strain',
@@ -199,7 +212,7 @@ class Probe:
                       f'{key}:homogeneity-strain', lam=lam)
             rec.close(1e-10 * sc_s[:, None, None], lam * s2, s, 'stress falls off as 1/r: sigma(lambda x) = sigma(x)/lambda', f'{key}:homogeneity-stress', lam=lam)
         # continuity of strain / stress across the cut
-        neg, _pos, rr = P.cut_points(rng, self.m, self.n)
+        neg, _pos, rr = self._cut_points()
         d = (1e-9 * rr)[:, None] * self.n
         ea, eb = self.eps(neg + d), self.eps(neg - d)
         rec.close(1e-6 * np.abs(ea).max(axis=(1, 2))[:, None, None], ea, eb, 'strain is continuous across the cut', f'{key}:strain-cut-continuity')
@@ -211,11 +224,22 @@ class Probe:
             good = rec.check(u1.shape == (3,) and e1.shape == (3, 3) and s1.shape == (3, 3),
                              'fields of a single point have shapes (3,), (3,3), (3,3)', f'{key}:shape-single', shapes=[u1.shape, e1.shape, s1.shape])
             if good:
-                rec.close(1e-12 * self.bmag * (1 + abs(np.log(r[k]))), np.real(u1), u[k], 'single point and array row agree (displacement)', f'{key}:single-vs-array:u')
+                rec.close(1e-12 * self.bmag * (1 + abs(np.log(r[k] / self.ls))), np.real(u1), u[k], 'single point and array row agree (displacement)', f'{key}:single-vs-array:u')
                 rec.close(1e-12 * sc_e[k], np.real(e1), e[k], 'single point and array row agree (strain)', f'{key}:single-vs-array:strain')
                 rec.close(1e-12 * sc_s[k], np.real(s1), s[k], 'single point and array row agree (stress)', f'{key}:single-vs-array:stress')
+        for nrow in (2, 3, 6):          # small arrays whose length coincides with a tensor dimension
+            sub = x[5:5 + nrow]
+            us, es, ss = (np.real(np.asarray(f(sub))) for f in (self.sol.displacement, self.sol.strain, self.sol.stress))
+            good = rec.check(us.shape == (nrow, 3) and es.shape == (nrow, 3, 3) and ss.shape == (nrow, 3, 3),
+                             'fields of an (N,3) array with N = 2, 3, 6 have shapes (N,3), (N,3,3), (N,3,3)', f'{key}:shape-small-array', n=nrow,
+                             shapes=[us.shape, es.shape, ss.shape])
+            if good:
+                rec.close(1e-12 * sc_e[5:5 + nrow, None, None], es, e[5:5 + nrow], 'small array and large array rows agree (strain)', f'{key}:small-vs-large:strain')
+                rec.close(1e-12 * sc_s[5:5 + nrow, None, None], ss, s[5:5 + nrow], 'small array and large array rows agree (stress)', f'{key}:small-vs-large:stress')
+                rec.close(1e-12 * self.bmag * (1 + np.abs(np.log(r[5:5 + nrow] / self.ls)))[:, None], us, u[5:5 + nrow],
+                          'small array and large array rows agree (displacement)', f'{key}:small-vs-large:u')
         ul = np.real(np.asarray(self.sol.displacement(x.tolist())))
-        rec.close(1e-12 * self.bmag * (1 + np.abs(np.log(r)))[:, None], ul, u, 'list-of-lists input gives the array result', f'{key}:list-input')
+        rec.close(1e-12 * self.bmag * (1 + np.abs(np.log(r / self.ls)))[:, None], ul, u, 'list-of-lists input gives the array result', f'{key}:list-input')
         self.x, self.r, self.fu, self.fe, self.fs, self.sc_e, self.sc_s = x, r, u, e, s, sc_e, sc_s
 
     # -- covariance under a rotation of the whole problem ----------------------------
@@ -224,7 +248,7 @@ class Probe:
         rec, key, rng = self.rec, self.key, self.ctx.rng
         R = G.random_rotation(rng)
         sol2 = None
-        with self.ctx.guard('the rotated problem (transform\'=R.T, m\'=Rm, n\'=Rn) is solved', f'{key}:covariance:solve'):
+        with self.ctx.guard('the rotated problem (transform\'=R.T, m\'=Rm, n\'=Rn) is solved', f'{key}:covariance:solve', accept=self.s.get('accept', ())):
             sol2 = build(R)
         if sol2 is None:
             return
@@ -236,7 +260,7 @@ class Probe:
         rec.close(1e-6 * self.bmag, sol2.burgers, R @ self.b, 'covariance: b\' = R b', f'{key}:covariance:burgers')
         rec.close(0, sol2.preln, self.sol.preln, 'covariance: preln unchanged', f'{key}:covariance:preln', rtol=1e-6)
         u2 = np.real(np.asarray(sol2.displacement(x2)))
-        rec.close(1e-6 * self.bmag * (1 + np.abs(np.log(r)))[:, None], u2, self.fu @ R.T, 'covariance: u\'(Rx) = R u(x)', f'{key}:covariance:u')
+        rec.close(1e-6 * self.bmag * (1 + np.abs(np.log(r / self.ls)))[:, None], u2, self.fu @ R.T, 'covariance: u\'(Rx) = R u(x)', f'{key}:covariance:u')
         e2 = np.real(np.asarray(sol2.strain(x2)))
         rec.close(1e-6 * self.sc_e[:, None, None], e2, np.einsum('ia,pab,jb->pij', R, self.fe, R), 'covariance: eps\'(Rx) = R eps(x) R^T',
                   f'{key}:covariance:strain')
@@ -262,6 +286,11 @@ def make_C(am, c6, how):
     return am.ElasticConstants(Cijkl=O.c4_from_voigt(c6))
 
 
+LSCALES = [1.0, 1e-10, 1e4]          # lengths (Burgers vector and positions): native, SI-like, large
+SCALES_STROH = P.SCALES * 3 + [1e-6] + P.SCALES[:2] + [1e9]   # extreme magnitudes (e.g. SI numbers): Stroh's absolute 1e-8 self-check thresholds may refuse
+#                                         them; such a refusal is accepted and counted, an accepted problem is checked in full
+
+
 def stroh_problem(rng, stiff_cls, mn_cls, b_cls, orient_cls, scale, rec):
     """Random problem of the given classes, resampled until the oracle's
     sextic roots are well separated."""
@@ -285,28 +314,33 @@ def stroh_problem(rng, stiff_cls, mn_cls, b_cls, orient_cls, scale, rec):
 
 def run_stroh(ctx, am):
     rec = ctx.rec
-    n_cases = ctx.pick(324, 8100)
+    n_cases = ctx.pick(324, 4860)
     nS, nM, nB, nO = len(P.STIFF_CLASSES), len(P.MN_CLASSES), len(P.BURGERS_STROH), len(P.ORIENT_CLASSES)
     for i in ctx.cases('stroh', n_cases):
         rng = ctx.rng
         stiff_cls = P.STIFF_CLASSES[i % nS]
-        mn_cls = P.MN_CLASSES[(i // nS + i) % nM]
+        mn_cls = P.MN_CLASSES[(i // nS) % nM]
         b_cls = P.BURGERS_STROH[i % nB]
         orient_cls = P.ORIENT_CLASSES[(i // 3) % nO]
-        scale = P.SCALES[(i // 7) % len(P.SCALES)]
+        scale = SCALES_STROH[(i // 7) % len(SCALES_STROH)]
+        ls = LSCALES[(i // 11) % 3]
+        extreme = scale not in P.SCALES
         pr = stroh_problem(rng, stiff_cls, mn_cls, b_cls, orient_cls, scale, rec)
-        for c in (stiff_cls, 'mn:' + mn_cls, 'b:' + b_cls, 'orient:' + orient_cls):
+        pr['b'], pr['b_c'] = pr['b'] * ls, pr['b_c'] * ls
+        for c in (stiff_cls, 'mn:' + mn_cls, 'b:' + b_cls, 'orient:' + orient_cls, f'scale:{scale:g}', f'length:{ls:g}'):
             rec.count('class:stroh:' + c)
         key = 'Stroh'
         C = make_C(am, pr['c6'], 'Cij' if i % 2 else 'Cijkl')
         kw = dict(pr['okw'], m=pr['m_arg'], n=pr['n_arg'])
         sol = None
-        with ctx.guard('Stroh solves a well-conditioned in-domain problem', f'{key}:solve'):
+        with ctx.guard('Stroh solves a well-conditioned in-domain problem', f'{key}:solve', accept=(ValueError,) if extreme else ()):
             sol = am.defect.Stroh(C, pr['b_c'].copy(), **kw)
+        if sol is None and extreme:
+            rec.count(f'stroh:extreme-magnitude-stiffness-refused:{scale:g}')
         done = False
         if sol is not None:
             rec.count('stroh:solved')
-            spec = dict(solver='stroh', key=key, c4=pr['c4'], b=pr['b'], T=pr['T'], m=pr['m'], n=pr['n'])
+            spec = dict(solver='stroh', key=key, c4=pr['c4'], b=pr['b'], T=pr['T'], m=pr['m'], n=pr['n'], ls=ls, accept=(ValueError,) if extreme else ())
             pb = Probe(ctx, sol, spec)
             K = pb.all()
             if K is not None:
@@ -317,14 +351,14 @@ def run_stroh(ctx, am):
                 pb.covariance(build, K)
                 # wrapper returns the anisotropic class when Stroh accepts
                 w = None
-                with ctx.guard('solve_volterra_dislocation solves what Stroh solves', f'wrapper:aniso:solve'):
+                with ctx.guard('solve_volterra_dislocation solves what Stroh solves', 'wrapper:aniso:solve'):
                     w = am.defect.solve_volterra_dislocation(C, pr['b_c'].copy(), **kw)
                 if w is not None:
                     rec.check(type(w) is am.defect.Stroh, 'solve_volterra_dislocation returns a Stroh solution when Stroh accepts the input',
                               'wrapper:aniso:class', got=type(w).__name__)
                     rec.close(1e-12 * np.abs(K).max(), w.K_tensor, K, 'wrapper solution equals the direct solution', 'wrapper:aniso:K')
                     rec.count('wrapper:aniso')
-        rec.case((stiff_cls, mn_cls, b_cls, orient_cls), nontrivial=done,
+        rec.case((stiff_cls, mn_cls, b_cls, orient_cls, scale, ls), nontrivial=done,
                  fp=fingerprint(pr['c6'], pr['b_c'], pr['T'], pr['m'], pr['n']))
         if i < 24:
             rec.sample(dict(stiffness=stiff_cls, Cij=pr['c6'], burgers=pr['b_c'], transform=pr['T'], m=pr['m'], n=pr['n'],
@@ -337,13 +371,14 @@ NU_CLASSES = ['typical', 'zero', 'negative', 'high']
 
 def run_iso(ctx, am):
     rec = ctx.rec
-    n_cases = ctx.pick(144, 3600)
+    n_cases = ctx.pick(144, 2160)
     nM = len(P.MN_CLASSES)
     for i in ctx.cases('iso', n_cases):
         rng = ctx.rng
         nu_cls = NU_CLASSES[i % 4]
-        mn_cls = P.MN_CLASSES[(i // 4 + i) % nM]
+        mn_cls = P.MN_CLASSES[(i // 4) % nM]
         b_cls = P.BURGERS_ISO[(i // 2) % 4]
+        ls = LSCALES[(i // 7) % 3]
         orient_cls = P.ORIENT_CLASSES[(i // 3) % 4]
         scale = P.SCALES[(i // 5) % 3]
         lam, mu, nu = P.random_iso(rng, nu_cls)
@@ -351,9 +386,9 @@ def run_iso(ctx, am):
         c6 = P.iso_c6(lam, mu)
         m_arg, n_arg, m, n = P.mn_axes(rng, mn_cls)
         okw, T = P.orientation(rng, orient_cls)
-        b_d = P.burgers_frame(rng, b_cls, m, n)
+        b_d = P.burgers_frame(rng, b_cls, m, n) * ls
         b_c = T.T @ b_d
-        for c in ('nu:' + nu_cls, 'mn:' + mn_cls, 'b:' + b_cls, 'orient:' + orient_cls):
+        for c in ('nu:' + nu_cls, 'mn:' + mn_cls, 'b:' + b_cls, 'orient:' + orient_cls, f'length:{ls:g}'):
             rec.count('class:iso:' + c)
         how = i % 3
         if how == 0:
@@ -384,7 +419,7 @@ def run_iso(ctx, am):
                     refused = True
                 rec.check(refused, 'the isotropic class is returned exactly when Stroh refuses', 'wrapper:iso:stroh-did-not-refuse')
             if isinstance(sol, am.defect.IsotropicVolterraDislocation):
-                spec = dict(solver='iso', key=key, c4=O.iso_c4(lam, mu), b=b_d, T=T, m=m, n=n)
+                spec = dict(solver='iso', key=key, c4=O.iso_c4(lam, mu), b=b_d, T=T, m=m, n=n, ls=ls)
                 pb = Probe(ctx, sol, spec)
                 K = pb.all()
                 if K is not None:
@@ -400,13 +435,13 @@ def run_iso(ctx, am):
                     rec.close(1e-9 * pb.sc_e[:, None, None], pb.fe, eo, 'isotropic strain equals the polar closed form (Hirth-Lothe)', f'{key}:closed-form:strain')
                     rec.close(1e-9 * pb.sc_s[:, None, None], pb.fs, so, 'isotropic stress equals the polar closed form (Hirth-Lothe)', f'{key}:closed-form:stress')
                     du, duo = pb.fu - pb.fu[3], uo - uo[3]
-                    rec.close(1e-9 * pb.bmag * (1 + np.abs(np.log(pb.r)))[:, None], du, duo,
+                    rec.close(1e-9 * pb.bmag * (1 + np.abs(np.log(pb.r / pb.ls)))[:, None], du, duo,
                               'isotropic displacement equals the closed form up to a rigid translation', f'{key}:closed-form:u')
 
                     def build(R):
                         return am.defect.IsotropicVolterraDislocation(C, b_c.copy(), transform=R @ T, m=R @ m, n=R @ n)
                     pb.covariance(build, K)
-        rec.case(('iso', nu_cls, mn_cls, b_cls, orient_cls), nontrivial=done, fp=fingerprint(c6, b_c, T, m, n))
+        rec.case(('iso', nu_cls, mn_cls, b_cls, orient_cls, ls), nontrivial=done, fp=fingerprint(c6, b_c, T, m, n))
         if i < 12:
             rec.sample(dict(lam=lam, mu=mu, nu=nu, burgers=b_c, transform=T, m=m, n=n, K_tensor=None if sol is None else sol.K_tensor))
 
@@ -423,7 +458,7 @@ def run_limit(ctx, am):
     """Stroh on C_iso + eta*mu*D (D = cubic anisotropy, crystal axes) approaches
     the isotropic closed form linearly in eta."""
     rec = ctx.rec
-    n_cases = ctx.pick(54, 1080)
+    n_cases = ctx.pick(54, 540)
     for i in ctx.cases('limit', n_cases):
         rng = ctx.rng
         mn_cls = P.MN_CLASSES[i % len(P.MN_CLASSES)]
@@ -501,7 +536,7 @@ def run_limit(ctx, am):
 def run_miller(ctx, am):
     """Orientation given by Miller line / plane in a (mostly non-cubic) cell."""
     rec = ctx.rec
-    n_cases = ctx.pick(192, 3840)
+    n_cases = ctx.pick(192, 1920)
     nBox = len(P.BOX_CLASSES)
     for i in ctx.cases('miller', n_cases):
         rng = ctx.rng
@@ -674,6 +709,11 @@ def run(ctx):
         rec.floor('class:iso:b:' + c, 10)
     for c in P.ORIENT_CLASSES:
         rec.floor('class:stroh:orient:' + c, 20)
+    for sc_ in set(SCALES_STROH):
+        rec.floor(f'class:stroh:scale:{sc_:g}', 20)
+    for ls_ in LSCALES:
+        rec.floor(f'class:stroh:length:{ls_:g}', 60)
+        rec.floor(f'class:iso:length:{ls_:g}', 30)
     for c in NU_CLASSES:
         rec.floor('class:iso:nu:' + c, 10)
     for c in P.BOX_CLASSES:
@@ -682,17 +722,17 @@ def run(ctx):
     rec.floor('class:miller:pair:random', 120)
     rec.floor('class:miller:solver:stroh', 100)
     rec.floor('class:miller:solver:iso', 50)
-    rec.floor('stroh:solved', 300)
+    rec.floor('stroh:solved', 260)
     rec.floor('miller:solved', 180)
     rec.floor('miller:corotated', 180)
     rec.floor('miller:crystal-plane-jump-points', 2000)
-    rec.floor('wrapper:aniso', 300)
+    rec.floor('wrapper:aniso', 260)
     rec.floor('wrapper:iso', 60)
-    rec.floor('covariance:evaluated', 420)
-    rec.floor('K:integral-oracle-evaluated', 600)
-    rec.floor('jump:points', 12000)
-    rec.floor('continuity:points', 60000)
-    rec.floor('field:points', 24000)
+    rec.floor('covariance:evaluated', 380)
+    rec.floor('K:integral-oracle-evaluated', 540)
+    rec.floor('jump:points', 10000)
+    rec.floor('continuity:points', 50000)
+    rec.floor('field:points', 20000)
     rec.floor('limit:solved', 120)
     rec.floor('wrapper:near-iso:stroh-accepted', 30)
     rec.floor('limit:linearity-evaluated', 150)
@@ -700,7 +740,7 @@ def run(ctx):
                  'clause:stress equals the stiffness contracted with the strain',
                  'clause:stress is divergence-free away from the line (central differences, relative to |sigma|/r)',
                  'clause:preln equals the energy prefactor of the solution\'s own fields: int 1/2 sigma:eps r^2 dtheta'):
-        rec.floor(name, 600)
+        rec.floor(name, 540)
     rec.floor('reach:VolterraDislocation.find_transform', 8)
     rec.floor('reach:Stroh.solve', 25)
     rec.floor('reach:Stroh.fields', 40)
